@@ -2561,6 +2561,17 @@ impl TypeChecker {
                 assert(blk_val is Some && !(*ret is Resolved && ret->Resolved_0 is Void) ==> rep0(self.types@, blk_val->Some_0.0 as int) == rep0(self.types@, ret_ty.0 as int)); //# C03 expression.the_value_of_the_body_of_an_accepted_function_has_the_declared_return_type
 //@   endghost
 //@   ghost before
+//@| self.unify(span, ctx, *p, a)?;
+                            let ghost ts_a = self.types@;
+                            let ghost t_a = ty_of(ts_a, a);
+                            proof { lemma_heads_refl(ts_a); assert(t_a == cty(ts_a, a.0 as int)); }
+//@   endghost
+//@   ghost loop-end 1
+                            // (Constraint::Variable is recorded on the argument and checked while the known type is
+                            // still the one the argument had: known types keep their constructor)
+                            assert(!(t_a is Void)); //# C03 expression.an_argument_whose_type_is_known_to_be_void_is_rejected
+//@   endghost
+//@   ghost before
 //@| let var = &self.variables[*var];
                 proof { lemma_var_valid(self, *var as int); }
 //@   endghost
